@@ -532,7 +532,7 @@ class CtxTarget(object):
             peer = c.client.sock.getpeername() if c.client is not None else None
         except Exception:
             peer = "closed"
-        self.seen.append({"kind": kind, "tag": tag, "reqi": ann.get("REQI"), "seq": c.seq, "flags": c.msg_flags, "ser": c.serializer_id,
+        self.seen.append({"kind": kind, "tag": tag, "reqi": ann.get("REQI"), "annkeys": sorted(ann), "seq": c.seq, "flags": c.msg_flags, "ser": c.serializer_id,
                           "corr": str(c.correlation_id), "peer": peer, "addr": c.client_sock_addr})
 
     def ret_assign(self, tag):
@@ -565,4 +565,10 @@ class CtxTarget(object):
 
     def plain(self, tag):
         self._record("plain", tag)
+        return tag
+
+    def tag_request(self, tag):
+        """marks its own request's annotations in place (they are this request's, nobody else may ever see the mark)"""
+        self._record("tag_request", tag)
+        current_context.annotations["TAGD"] = tag.encode()
         return tag
